@@ -59,10 +59,18 @@ GROWTH ROUND 6 (EXPECT list, IFDEF against the table, pass-loop causes, named si
     model raises its messages through Diag!WrXErrorPos (Diag.tla's own list), StmtSucc judges them with
     DiagPos!Report: the two stand-alone models of the list are checked against each other and against asl.
     Invariants: ExpectListIsAnnouncedMinusConsumed, HiddenIsNeverCounted, EndIsFinal.
-  * mutations of the real code tried (scratch copies, VERIF_REPO=...): see the table in the final report of the round
-    / DESIGN.md section 12; asmerr.c: ENDEXPECT reports only the first unmet expectation; EXPECT nests silently;
-    AddExpectError appends instead of prepending; asmif.c: IFDEF ignores the Defined mark; asmpars.c: SymbolAdder does
-    not ask for another pass.
+  * mutations of the real code tried (scratch copies, VERIF_REPO=/tmp/gac-mN ./check C12; EXPECT is outside the letter
+    of C12, so these show as SPEC-DRIFT with the named claim + "model predicts n errors, asl counted m"; exit 0):
+      asmerr.c CodeENDEXPECT reports only the first unmet expectation -> EndExpectReportsExactlyUnmet (21 reports);
+      asmerr.c CodeEXPECT without the nesting test                     -> ExpectDoesNotNest (77 reports);
+      asmerr.c AddExpectError appends instead of prepending, asmpars.c IsSymbolDefined ignores the Defined mark:
+      see DESIGN.md section 12 / the round's report for the results.
+    Recorded fields corrupted (TLC names the claim): an "expected" record dropped -> EndExpectReportsExactlyUnmet;
+    EXPECT announcing another number -> ExpectListIsHistory; IFDEF <-> IFNDEF -> IfdefReadsTable; repass flag of a
+    PASSEND cleared -> PhaseErrorForcesRepass; CodeLen + 1 -> CodeLenIsEmitted.
+  * NOT covered: EXPECT arguments that are not literal numbers (list fuzzy, nothing claimed), IFDEF of names that are
+    also macros / functions, IFDEF with [section] qualifiers or {..} names, the reverse direction of EndSetsEntry for
+    relocatable output, ASSUME / BIT / CHARSET ... (the 112 statements of generic_rule_histogram).
 """
 import concurrent.futures as cf
 import json
